@@ -246,20 +246,29 @@ class Engine:
             self.assume(e >= lo)
         if hi is not None:
             self.assume(e <= hi)
+        ekey = e.sexpr()
         for _ in range(cap):
-            if len(self.trace) < len(self.prefix):
-                # replaying: values are tried in the recorded order, which is
-                # model dependent; so replay needs the value, not the model.
-                v = self.prefix_vals.get(len(self.trace))
-                if v is None:
-                    raise RuntimeError("replay misaligned in fork_int")
-            else:
+            pos = len(self.trace)
+            v = None
+            if pos < len(self.prefix):
+                # replaying: values are tried in the recorded order, which is model
+                # dependent; so replay needs the value, not the model.  The record is
+                # only ours if it was made for this very expression.
+                rec = self.prefix_vals.get(pos)
+                if rec is not None and rec[1] == ekey:
+                    v = rec[0]
+            if v is None:
+                # (also when replaying and the recorded run decided this value from the
+                # decision cache: then e is already fixed by the path condition)
                 m = self._get_model()
                 v = m.eval(e, model_completion=True).as_long()
-                self.trace_vals[len(self.trace)] = v
-            if self.decide(e == v):
+            r = self.decide(e == v)
+            if len(self.trace) > pos:
+                self.trace_vals[pos] = (v, ekey)      # a real (non-cached) decision was taken at pos
+            if r:
                 return v
-        raise Inconclusive("fork_int: more than %d values" % cap)
+            self.model = None     # the rejected value is excluded on the path: re-solve
+        raise Inconclusive("fork_int: more than %d values for %s" % (cap, str(e)[:120]))
 
     # ---- exploration -----------------------------------------------------
     def explore(self, fn, assumptions=(), roots=None, split_depth=None,
